@@ -31,4 +31,16 @@ func TestEnumerationSize(t *testing.T) {
 		t.Logf("%+v", model(p))
 	}
 	t.Logf("%s", exhProgram(exhEnumerate(5)[3000], 3000, "y"))
+	for i := 0; i < 3; i++ {
+		p := aliasProgram(r, "a")
+		t.Logf("alias: %s", p)
+		t.Logf("%+v", model(p))
+	}
+	for fam := 0; fam < nFamilies; fam++ {
+		p := retryProgram(r, "f", fam)
+		if !p.HasFaults || len(p.Faults) == 0 {
+			t.Fatalf("no faults in %s", p)
+		}
+		t.Logf("retry/%s: %s", familyName[fam], p)
+	}
 }
